@@ -319,7 +319,7 @@ class Contract(object):
 
 class LoopContract(object):
     def __init__(self, func_qualname, ordinal, invariant=(), variant=None, havoc=None, define=None,
-                 index=None, havoc_fields=(), note=''):
+                 index=None, havoc_fields=(), note='', snapshot=None, step=()):
         self.func_qualname = func_qualname
         self.ordinal = ordinal
         self.invariant = [_clause_label(c) for c in invariant]
@@ -329,6 +329,10 @@ class LoopContract(object):
         self.index = index
         self.havoc_fields = list(havoc_fields)
         self.note = note
+        # snapshot: names bound to expressions evaluated at the START of an arbitrary iteration;
+        # step: clauses over them proved at the END of that iteration (one-step relation of the body)
+        self.snapshot = snapshot or {}
+        self.step = [_clause_label(c) for c in step]
 
     def _name(self, kind, lab=''):
         return '%s:loop%d:%s%s' % (self.func_qualname, self.ordinal, kind, (':' + lab) if lab else '')
@@ -398,6 +402,8 @@ class LoopContract(object):
             # an arbitrary iteration
             if not it.truthy(it.eval(node.test, frame)):
                 raise PathAbort()
+            for n_, e_ in self.snapshot.items():
+                frame.vars[n_] = _snapshot(it.spec_eval(e_, frame))
             v0 = it.spec_eval(self.variant, frame) if self.variant else None
             before = _live_ids(frame)
             saved_log = it.heap_log
@@ -422,6 +428,8 @@ class LoopContract(object):
                         saved_log.extend(lg)
             self._body_writes_ok(it, log, havoced, before)
             self._check_inv(it, frame, 'inv-keep')
+            for lab, c_ in self.step:
+                ctx.prove(self._name('step', lab), it.spec_truth(c_, frame), 'step')
             if self.variant:
                 v1 = it.spec_eval(self.variant, frame)
                 ctx.prove(self._name('variant'), z3.And(zint(v0) >= 0, zint(v1) < zint(v0)), 'variant')
@@ -451,6 +459,8 @@ class LoopContract(object):
         if k == 0:
             ctx.assume(i < zint(seq.length()))
             it.assign(node.target, seq.item(i), frame)
+            for n_, e_ in self.snapshot.items():
+                frame.vars[n_] = _snapshot(it.spec_eval(e_, frame))
             before = _live_ids(frame)
             saved_log = it.heap_log
             it.heap_log = []
@@ -471,9 +481,9 @@ class LoopContract(object):
                     it.heap_log = saved_log
             self._body_writes_ok(it, log, havoced, before)
             frame.vars[self.index] = simp(i + 1)
-            for n, e in self.define.items():
-                pass
             self._check_inv(it, frame, 'inv-keep')
+            for lab, c_ in self.step:
+                ctx.prove(self._name('step', lab), it.spec_truth(c_, frame), 'step')
             raise PathAbort()
         ctx.assume(i == zint(seq.length()))
         it.exec_block(node.orelse, frame)
